@@ -53,7 +53,7 @@ use serde::{Deserialize, Serialize};
 use std::str::FromStr;
 use umya_spreadsheet::{
     Alignment, Border, Color, EnumTrait, Fill, Font, GradientStop, HorizontalAlignmentValues, NumberingFormat,
-    PatternFill, PatternValues, Protection, Style, UnderlineValues, VerticalAlignmentValues,
+    PatternFill, PatternValues, Protection, Style, UnderlineValues, VerticalAlignmentRunValues, VerticalAlignmentValues,
 };
 
 // ---------------------------------------------------------------------------------------
@@ -185,6 +185,17 @@ pub struct FontSpec {
     pub underline: u8,
     pub strike: Option<bool>,
     pub color: Option<ColorSpec>,
+    /// CARRIER attributes: the statement does not name them, so they are NOT part of the
+    /// projection and never compared; they are set so that the named attributes are checked
+    /// in their presence (they are fields of the font key and elements of <font>).
+    /// vertAlign: 1 baseline, 2 superscript, 3 subscript
+    #[serde(default)]
+    pub vert_align: Option<u8>,
+    #[serde(default)]
+    pub charset: Option<i32>,
+    /// 1 major, 2 minor, 3 none (set_name itself sets "none")
+    #[serde(default)]
+    pub scheme: Option<u8>,
 }
 
 #[derive(Debug, Clone, Serialize, Deserialize, PartialEq)]
@@ -233,7 +244,7 @@ pub struct AlignSpec {
 
 #[derive(Debug, Clone, Serialize, Deserialize, PartialEq)]
 pub enum NumFmtSpec {
-    /// `set_number_format_id(id)`, id from BUILTIN_IDS
+    /// `set_number_format_id(id)`, id from the library's built-in table (`builtin_table()`)
     Builtin(u32),
     /// `set_format_code(code)`
     Code(String),
@@ -310,6 +321,20 @@ pub fn apply(s: &StyleSpec) -> Style {
         }
         if let Some(c) = &f.color {
             font.set_color(apply_color(c));
+        }
+        if let Some(v) = f.vert_align {
+            let val = match v % 3 {
+                1 => VerticalAlignmentRunValues::Baseline,
+                2 => VerticalAlignmentRunValues::Superscript,
+                _ => VerticalAlignmentRunValues::Subscript,
+            };
+            font.get_vertical_text_alignment_mut().set_val(val);
+        }
+        if let Some(v) = f.charset {
+            font.set_charset(v);
+        }
+        if let Some(v) = f.scheme {
+            font.set_scheme(["none", "major", "minor"][v as usize % 3]);
         }
         st.set_font(font);
     }
@@ -662,6 +687,81 @@ pub fn effective(st: &Style) -> StyleProj {
     StyleProj(v)
 }
 
+/// The library's whole built-in id -> code table, read through the public API
+/// (`set_number_format_id` panics for an id it does not know; ids 0..=200 are probed once).
+pub fn builtin_table() -> &'static Vec<(u32, String)> {
+    static T: std::sync::OnceLock<Vec<(u32, String)>> = std::sync::OnceLock::new();
+    T.get_or_init(|| {
+        let mut v = Vec::new();
+        for id in 0u32..=200 {
+            let r = std::panic::catch_unwind(|| {
+                let mut nf = NumberingFormat::default();
+                nf.set_number_format_id(id);
+                nf.get_format_code().to_string()
+            });
+            if let Ok(code) = r {
+                v.push((id, code));
+            }
+        }
+        // fallback so that strategies never see an empty table
+        if v.is_empty() {
+            v.push((0, "General".to_string()));
+        }
+        v
+    })
+}
+
+/// ASCII-case variant of a code: 0 exact, 1 upper, 2 lower, 3 mixed (letters alternate,
+/// starting lower), 4 mixed starting upper.  Only ASCII letters change.
+pub fn case_variant(code: &str, kind: u8) -> String {
+    match kind % 5 {
+        0 => code.to_string(),
+        1 => code.to_ascii_uppercase(),
+        2 => code.to_ascii_lowercase(),
+        k => {
+            let mut up = k == 4;
+            code.chars()
+                .map(|c| {
+                    if c.is_ascii_alphabetic() {
+                        up = !up;
+                        if up {
+                            c.to_ascii_uppercase()
+                        } else {
+                            c.to_ascii_lowercase()
+                        }
+                    } else {
+                        c
+                    }
+                })
+                .collect()
+        }
+    }
+}
+
+/// Every built-in code in its exact spelling and in the case variants that differ from it,
+/// as CUSTOM codes (`set_format_code`): a custom code that is only a case variant of a
+/// built-in one is a different code and must come back as written.
+pub fn builtin_case_variants() -> &'static Vec<String> {
+    static T: std::sync::OnceLock<Vec<String>> = std::sync::OnceLock::new();
+    T.get_or_init(|| {
+        let mut v: Vec<String> = Vec::new();
+        for (_, code) in builtin_table() {
+            for k in 0..5u8 {
+                let c = case_variant(code, k);
+                if !v.contains(&c) {
+                    v.push(c);
+                }
+            }
+        }
+        v
+    })
+}
+
+/// is `code` a case variant (not the exact spelling) of some built-in code?
+pub fn is_builtin_case_variant(code: &str) -> bool {
+    builtin_table().iter().any(|(_, b)| b != code && b.eq_ignore_ascii_case(code))
+}
+
 /// code of a built-in id, from the library's table (data, read through the public API)
 pub fn builtin_code(id: u32) -> String {
     let mut nf = NumberingFormat::default();
@@ -753,6 +853,9 @@ fn default_font_spec() -> FontSpec {
         underline: 0,
         strike: None,
         color: Some(ColorSpec { kind: ColorKind::Theme(1), tint: None }),
+        vert_align: None,
+        charset: None,
+        scheme: None,
     }
 }
 
@@ -935,13 +1038,27 @@ pub fn mutate(base: &StyleSpec, k: usize, variant: u8) -> StyleSpec {
         }
         27 => {
             let cur = expected(&s).0[26].clone();
-            let n = CUSTOM_CODES.len() + BUILTIN_IDS.len();
+            // a case variant of the current code is the closest possible neighbour
+            if variant % 3 == 0 {
+                for k in 1..5u8 {
+                    let c = case_variant(&cur, k.wrapping_add(variant / 3) % 4 + 1);
+                    if c != cur {
+                        s.numfmt = Some(NumFmtSpec::Code(c));
+                        return s;
+                    }
+                }
+            }
+            let tab = builtin_table();
+            let vars = builtin_case_variants();
+            let n = CUSTOM_CODES.len() + tab.len() + vars.len();
             for j in 0..n {
                 let i = (variant as usize * 7 + j) % n;
                 let cand = if i < CUSTOM_CODES.len() {
                     NumFmtSpec::Code(CUSTOM_CODES[i].to_string())
+                } else if i < CUSTOM_CODES.len() + tab.len() {
+                    NumFmtSpec::Builtin(tab[i - CUSTOM_CODES.len()].0)
                 } else {
-                    NumFmtSpec::Builtin(BUILTIN_IDS[i - CUSTOM_CODES.len()])
+                    NumFmtSpec::Code(vars[i - CUSTOM_CODES.len() - tab.len()].clone())
                 };
                 let code = match &cand {
                     NumFmtSpec::Code(c) => c.clone(),
@@ -1082,10 +1199,27 @@ pub fn adversarial(kind: u8, base: &StyleSpec, a: u8, b: u8) -> Vec<StyleSpec> {
         6 => {
             // number formats that differ by case, a blank, an XML special or its escaped look-alike
             let mut out = Vec::new();
-            for c in ["0.0", "0.0 ", " 0.0", "0.0E+0", "0.0e+0", "0\"&\"", "0\"&amp;\"", "0\"<\"", "0\"&lt;\"", "\"<\"0.0;[Red]\"&\"0", "yyyy-mm-dd", "YYYY-MM-DD"] {
+            if a % 2 == 0 {
+                for c in ["0.0", "0.0 ", " 0.0", "0.0E+0", "0.0e+0", "0\"&\"", "0\"&amp;\"", "0\"<\"", "0\"&lt;\"", "\"<\"0.0;[Red]\"&\"0", "yyyy-mm-dd", "YYYY-MM-DD"] {
+                    let mut z = base.clone();
+                    z.numfmt = Some(NumFmtSpec::Code(c.to_string()));
+                    out.push(z);
+                }
+            } else {
+                // one built-in format by id, by its exact code, and its upper / lower / mixed
+                // case variants as custom codes, all in one workbook
+                let tab = builtin_table();
+                let (id, code) = &tab[crate::engine::pick_idx((b as u16) << 8 | (a as u16), tab.len())];
                 let mut z = base.clone();
-                z.numfmt = Some(NumFmtSpec::Code(c.to_string()));
+                z.numfmt = Some(NumFmtSpec::Builtin(*id));
                 out.push(z);
+                for k in 0..5u8 {
+                    let mut z = base.clone();
+                    z.numfmt = Some(NumFmtSpec::Code(case_variant(code, k)));
+                    if !out.contains(&z) {
+                        out.push(z);
+                    }
+                }
             }
             return out;
         }
@@ -1142,8 +1276,13 @@ pub fn font_spec() -> BoxedStrategy<FontSpec> {
         prop_oneof![4 => Just(0u8), 3 => 1u8..6],
         opt_bool(),
         prop::option::weighted(0.8, color_spec()),
+        (
+            prop::option::weighted(0.15, 1u8..=3),
+            prop::option::weighted(0.15, prop::sample::select(vec![0i32, 1, 2, 128, 129, 134, 204, 238])),
+            prop::option::weighted(0.15, 0u8..3),
+        ),
     )
-        .prop_map(|(name, size, family, bold, italic, underline, strike, color)| FontSpec {
+        .prop_map(|(name, size, family, bold, italic, underline, strike, color, (vert_align, charset, scheme))| FontSpec {
             name: name.to_string(),
             size: Num(size),
             family,
@@ -1152,6 +1291,9 @@ pub fn font_spec() -> BoxedStrategy<FontSpec> {
             underline,
             strike,
             color,
+            vert_align,
+            charset,
+            scheme,
         })
         .boxed()
 }
@@ -1228,7 +1370,9 @@ pub fn align_spec() -> BoxedStrategy<AlignSpec> {
 
 pub fn numfmt_spec() -> BoxedStrategy<NumFmtSpec> {
     prop_oneof![
-        3 => prop::sample::select(BUILTIN_IDS.to_vec()).prop_map(NumFmtSpec::Builtin),
+        2 => prop::sample::select(BUILTIN_IDS.to_vec()).prop_map(NumFmtSpec::Builtin),
+        1 => prop::sample::select(builtin_table().clone()).prop_map(|(id, _)| NumFmtSpec::Builtin(id)),
+        2 => prop::sample::select(builtin_case_variants().clone()).prop_map(NumFmtSpec::Code),
         4 => prop::sample::select(CUSTOM_CODES.to_vec()).prop_map(|s| NumFmtSpec::Code(s.to_string())),
         1 => (1usize..6, prop::sample::select(vec!["", "%", " \"<&>\"", ";[Red]-0", "E+00", " \"x\""]))
             .prop_map(|(n, suffix)| NumFmtSpec::Code(format!("0.{}{}", "0".repeat(n + 4), suffix))),
